@@ -168,6 +168,45 @@ static void patched_line(char *line)
   tj3Destroy(hd); tj3Free(jpg); free(src); free(dst); putchar('\n');
 }
 
+/* j <w> <h> <quality> <fastdct> <kind> <seed> <ncomp> h0 v0 [h1 v1 h2 v2] : libjpeg API with explicit
+   sampling factors (ncomp 3: RGB -> YCbCr; ncomp 1/2: JCS_UNKNOWN, no colour conversion); decoded with
+   fancy and with plain upsampling */
+#include <setjmp.h>
+static jmp_buf jerr_jb;
+static void jerr_exit(j_common_ptr c) { longjmp(jerr_jb, 1); }
+static void libjpeg_line(char *line)
+{
+  int w, h, q, fast, kind, nc, hv[6] = { 1, 1, 1, 1, 1, 1 }, n, i, fancy; unsigned long long seed;
+  struct jpeg_compress_struct c; struct jpeg_decompress_struct d; struct jpeg_error_mgr e;
+  unsigned char *src, *jpg = NULL, *dst; unsigned long jlen = 0; JSAMPROW row;
+  n = sscanf(line, "j %d %d %d %d %d %llu %d %d %d %d %d %d %d", &w, &h, &q, &fast, &kind, &seed, &nc, hv, hv + 1, hv + 2, hv + 3, hv + 4, hv + 5);
+  if (n < 9 || nc < 1 || nc > 3) { puts("?"); return; }
+  src = amalloc((size_t)w * h * nc); fill_image(src, w, h, nc, kind, seed);
+  c.err = jpeg_std_error(&e); e.error_exit = jerr_exit;
+  if (setjmp(jerr_jb)) { printf("enc-error %d\n", e.msg_code); jpeg_destroy_compress(&c); free(src); return; }
+  jpeg_create_compress(&c); jpeg_mem_dest(&c, &jpg, &jlen);
+  c.image_width = w; c.image_height = h; c.input_components = nc; c.in_color_space = nc == 3 ? JCS_RGB : JCS_UNKNOWN;
+  jpeg_set_defaults(&c); jpeg_set_quality(&c, q, TRUE); c.dct_method = fast ? JDCT_IFAST : JDCT_ISLOW;
+  for (i = 0; i < nc; i++) { c.comp_info[i].h_samp_factor = hv[2 * i]; c.comp_info[i].v_samp_factor = hv[2 * i + 1]; }
+  jpeg_start_compress(&c, TRUE);
+  while (c.next_scanline < c.image_height) { row = src + (size_t)c.next_scanline * w * nc; jpeg_write_scanlines(&c, &row, 1); }
+  jpeg_finish_compress(&c); jpeg_destroy_compress(&c);
+  printf("enc %lu %016llx", jlen, (unsigned long long)fnv(FNV0, jpg, jlen));
+  dst = amalloc((size_t)w * h * 4);
+  for (fancy = 1; fancy >= 0; fancy--) {
+    d.err = jpeg_std_error(&e); e.error_exit = jerr_exit;
+    if (setjmp(jerr_jb)) { printf(" f%d:ERR%d", fancy, e.msg_code); jpeg_destroy_decompress(&d); continue; }
+    jpeg_create_decompress(&d); jpeg_mem_src(&d, jpg, jlen); jpeg_read_header(&d, TRUE);
+    d.dct_method = fast ? JDCT_IFAST : JDCT_ISLOW; d.do_fancy_upsampling = fancy;
+    jpeg_start_decompress(&d);
+    memset(dst, 0, (size_t)w * h * 4);
+    while (d.output_scanline < d.output_height) { row = dst + (size_t)d.output_scanline * d.output_width * d.output_components; jpeg_read_scanlines(&d, &row, 1); }
+    printf(" f%d:%016llx", fancy, (unsigned long long)fnv(FNV0, dst, (size_t)d.output_width * d.output_height * d.output_components));
+    jpeg_finish_decompress(&d); jpeg_destroy_decompress(&d);
+  }
+  free(jpg); free(src); free(dst); putchar('\n');
+}
+
 /* ------------------------------------------------------------------ kernel */
 static int cs_ps(int cs)
 {
@@ -200,6 +239,7 @@ static void pr_bytes(const u8 *b, int n) { int i; for (i = 0; i < n; i++) printf
 
 #define MAXW 4096
 static u8 *B[16];          /* aligned scratch rows */
+static u8 *RW(int i, int k) { return B[i] + (size_t)k * 4096; }
 static void rows_init(void) { int i; for (i = 0; i < 16; i++) B[i] = amalloc(MAXW * 8); }
 
 struct bulkres { uint64_t hs, hc; long n; char diff[256]; };
@@ -333,6 +373,55 @@ static void bulk(char *p)
       c05_plain(1, v2, w, B[0], B[4], B[5]); c05_plain(0, v2, w, B[0], B[6], B[7]);
       bulk_cmp(&r, B[4], B[6], w, "kernel=h2v%d_upsample output_width=%d outrow=0", v2 ? 2 : 1, w);
       if (v2) bulk_cmp(&r, B[5], B[7], w, "kernel=h2v2_upsample output_width=%d outrow=1", w);
+    }
+  } else if (!strcmp(what, "rowsup")) {   /* a = fancy, b2 = v2, c2 = seed : whole row groups, max_v_samp_factor 1..4 */
+    int fancy = (int)a, v2 = (int)b2, max_v, wi; static const int ws[] = { 3, 4, 15, 16, 17, 31, 32, 33, 35, 64, 65, 70, 100, 129 };
+    rng_s = (uint64_t)c2;
+    for (max_v = 1; max_v <= 4; max_v++) for (wi = 0; wi < 14; wi++) {
+      int w = ws[wi], nin = v2 ? (max_v + 1) / 2 : max_v, nout = v2 ? 2 * nin : max_v, k, j, outw = fancy ? 2 * w : w;
+      u8 *is[8], *ic[8], *os[4], *oc[4];
+      for (k = 0; k < nin + 2; k++) { is[k] = RW(0, k); ic[k] = RW(1, k); for (j = 0; j < 4096; j++) is[k][j] = ic[k][j] = (u8)rnd(); }
+      for (k = 0; k < 4; k++) { os[k] = RW(2, k); oc[k] = RW(3, k); memset(os[k], 0x55, 4096); memset(oc[k], 0x55, 4096); }
+      if (fancy) { c05_fancy_rows(1, v2, w, max_v, is + 1, os); c05_fancy_rows(0, v2, w, max_v, ic + 1, oc); }
+      else { c05_plain_rows(1, v2, w, max_v, is + 1, os); c05_plain_rows(0, v2, w, max_v, ic + 1, oc); }
+      for (k = 0; k < 4; k++)      /* rows the C code does not write must stay untouched by the kernel too */
+        bulk_cmp(&r, os[k], oc[k], k < nout ? (size_t)outw : 64, "kernel=h2v%d_%supsample max_v_samp_factor=%d width=%d output_row=%d (of %d written by the C code)",
+                 v2 ? 2 : 1, fancy ? "fancy_" : "", max_v, w, k, nout);
+    }
+  } else if (!strcmp(what, "rowsdown")) { /* a = v2, c2 = seed : v_samp_factor 1..4 rows per call */
+    int v2 = (int)a, vs, iwi; static const int iws[] = { 1, 2, 15, 16, 17, 31, 33, 63, 64, 65, 100, 130, 257 };
+    rng_s = (uint64_t)c2;
+    for (vs = 1; vs <= 4; vs++) for (iwi = 0; iwi < 13; iwi++) {
+      int iw = iws[iwi], nin = v2 ? 2 * vs : vs, k, j; unsigned wib = ((iw + 1) / 2 + 7) / 8;
+      u8 *is[8], *ic[8], *os[4], *oc[4];
+      for (k = 0; k < nin; k++) { is[k] = RW(0, k); ic[k] = RW(1, k); for (j = 0; j < 4096; j++) is[k][j] = ic[k][j] = (u8)rnd(); }
+      for (k = 0; k < 4; k++) { os[k] = RW(2, k); oc[k] = RW(3, k); memset(os[k], 0x55, 4096); memset(oc[k], 0x55, 4096); }
+      c05_down_rows(1, v2, iw, wib, vs, is, os); c05_down_rows(0, v2, iw, wib, vs, ic, oc);
+      for (k = 0; k < 4; k++)
+        bulk_cmp(&r, os[k], oc[k], k < vs ? wib * 8 : 64, "kernel=h2v%d_downsample v_samp_factor=%d image_width=%d output_row=%d", v2 ? 2 : 1, vs, iw, k);
+    }
+  } else if (!strcmp(what, "rowscolour")) { /* a = cs, c2 = seed : num_rows 1..4 */
+    int cs = (int)a, ps = cs_ps(cs), nr, wi; static const int ws[] = { 1, 7, 16, 17, 33, 64, 70 };
+    rng_s = (uint64_t)c2;
+    for (nr = 1; nr <= 4; nr++) for (wi = 0; wi < 7; wi++) {
+      int w = ws[wi], k, j, g; u8 *in[4], *ys[4], *cbs[4], *crs[4], *yc[4], *cbc[4], *crc[4], *o1[4], *o2[4];
+      for (k = 0; k < 4; k++) { in[k] = RW(0, k) + (k * 5 & 31); for (j = 0; j < w * ps; j++) in[k][j] = (u8)rnd();
+        ys[k] = RW(1, k); cbs[k] = RW(2, k); crs[k] = RW(3, k); yc[k] = RW(4, k); cbc[k] = RW(5, k); crc[k] = RW(6, k); o1[k] = RW(7, k) + (k * 3 & 31); o2[k] = RW(8, k) + (k * 3 & 31); }
+      for (g = 0; g < 2; g++) {
+        for (k = 0; k < 4; k++) { memset(ys[k], 0x55, 512); memset(cbs[k], 0x55, 512); memset(crs[k], 0x55, 512); memset(yc[k], 0x55, 512); memset(cbc[k], 0x55, 512); memset(crc[k], 0x55, 512); }
+        c05_rgb_ycc_rows(1, cs, in, ys, cbs, crs, w, nr, g); c05_rgb_ycc_rows(0, cs, in, yc, cbc, crc, w, nr, g);
+        for (k = 0; k < 4; k++) { size_t n = k < nr ? (size_t)w : 64;
+          bulk_cmp(&r, ys[k], yc[k], n, "kernel=rgb_%s cs=%d width=%d num_rows=%d row=%d plane=Y", g ? "gray" : "ycc", cs, w, nr, k);
+          if (!g) { bulk_cmp(&r, cbs[k], cbc[k], n, "kernel=rgb_ycc cs=%d width=%d num_rows=%d row=%d plane=Cb", cs, w, nr, k);
+                    bulk_cmp(&r, crs[k], crc[k], n, "kernel=rgb_ycc cs=%d width=%d num_rows=%d row=%d plane=Cr", cs, w, nr, k); } }
+      }
+      for (k = 0; k < 4; k++) { for (j = 0; j < w; j++) { ys[k][j] = (u8)rnd(); cbs[k][j] = (u8)rnd(); crs[k][j] = (u8)rnd(); } memset(o1[k], 0x55, 512); memset(o2[k], 0x55, 512); }
+      c05_ycc_rgb_rows(1, cs, ys, cbs, crs, o1, w, nr); c05_ycc_rgb_rows(0, cs, ys, cbs, crs, o2, w, nr);
+      if (ps == 4 && (cs == JCS_EXT_RGBX || cs == JCS_EXT_BGRX || cs == JCS_EXT_XBGR || cs == JCS_EXT_XRGB)) {
+        int ro, go, bo; cs_offsets(cs, &ro, &go, &bo);
+        for (k = 0; k < nr; k++) for (j = 0; j < w; j++) { int xo = 6 - ro - go - bo; o1[k][j * 4 + xo] = 0; o2[k][j * 4 + xo] = 0; }
+      }
+      for (k = 0; k < 4; k++) bulk_cmp(&r, o1[k], o2[k], k < nr ? (size_t)w * ps : 64, "kernel=ycc_rgb cs=%d width=%d num_rows=%d row=%d", cs, w, nr, k);
     }
   } else if (!strcmp(what, "quant")) {    /* divisors a..b2, all coefficients -32767..32767 step c2 (1 = exhaustive) */
     long d; short *dt = (short *)B[0], *ws = (short *)B[1], *o1 = (short *)B[2], *o2 = (short *)B[3];
@@ -492,6 +581,24 @@ static void kernel_line(char *line)
       c05_quant(s, o, dt, ws); for (i = 0; i < nx; i++) printf(" %d", o[i]);
     }
     putchar('\n');
+  } else if (!strcmp(cmd, "plaing") || !strcmp(cmd, "fancyg") || !strcmp(cmd, "downg")) {
+    /* plaing <v2> <outw> <max_v> | in rows...      fancyg <v2> <w> <max_v> | row -1 | rows.. | row n
+       downg <v2> <iw> <wib> <vs> | in rows...   : prints every output row the C code writes, in order */
+    int ok, v2 = (int)nextnum(&p, &ok), w = (int)nextnum(&p, &ok), a3 = (int)nextnum(&p, &ok), a4 = cmd[0] == 'd' ? (int)nextnum(&p, &ok) : 0;
+    static u8 rr[8][MAXW]; int nr[8], nrows = 0, s; u8 *in[8], *out[4];
+    while (*p == ' ') p++; if (*p == '|') p++;
+    while (nrows < 8 && *p && *p != '\n') { nr[nrows] = readlist(&p, rr[nrows], MAXW); nrows++; while (*p == ' ') p++; }
+    for (s = 1; s >= 0; s--) {
+      int nout, outw;
+      for (k = 0; k < 8; k++) { in[k] = RW(0, k); memset(in[k], 0, 4096); if (k < nrows) memcpy(in[k], rr[k], nr[k]); }
+      for (k = 0; k < 4; k++) { out[k] = RW(2, k); memset(out[k], 0x55, 4096); }
+      printf(s ? "S" : " | C");
+      if (cmd[0] == 'p') { c05_plain_rows(s, v2, w, a3, in, out); nout = v2 ? 2 * ((a3 + 1) / 2) : a3; outw = w; }
+      else if (cmd[0] == 'f') { c05_fancy_rows(s, v2, w, a3, in + 1, out); nout = v2 ? 2 * ((a3 + 1) / 2) : a3; outw = 2 * w; }
+      else { c05_down_rows(s, v2, w, a3, a4, in, out); nout = a4; outw = a3 * 8; }
+      for (k = 0; k < nout && k < 4; k++) pr_bytes(out[k], outw);
+    }
+    putchar('\n');
   } else if (!strcmp(cmd, "fdctfst")) {
     /* 64 level-shifted samples */
     int ok, s; short *d = (short *)B[0]; static short in[64];
@@ -512,7 +619,7 @@ int main(int argc, char **argv)
   setvbuf(stdout, NULL, _IOLBF, 0);
   if (argc < 2) return 2;
   if (!strcmp(argv[1], "codec")) {
-    while (fgets(line, sizeof(line), stdin)) { if (line[0] == 'p') patched_line(line); else codec_line(line); }
+    while (fgets(line, sizeof(line), stdin)) { if (line[0] == 'p') patched_line(line); else if (line[0] == 'j') libjpeg_line(line); else codec_line(line); }
     return 0;
   }
   if (!strcmp(argv[1], "kernel")) {
